@@ -50,7 +50,8 @@ type Step struct {
 	Seed  uint32 `json:"seed,omitempty"`  // h2d: data seed; kernel: the constant K
 	Wait  bool   `json:"wait,omitempty"`  // kernel: s_waitcnt vmcnt(0) before s_endpgm
 	WG    int    `json:"wg,omitempty"`    // kernel: work-group size
-	Shift int    `json:"shift,omitempty"` // kernel: work-item gid stores to dword gid<<shift (4 = one store per 64-byte line)
+	Shift int    `json:"shift,omitempty"` // kernel: work-item gid stores to element gid<<shift (4 = one store per 64-byte line for one-dword elements)
+	W     int    `json:"w,omitempty"`     // kernel: dwords per element and store instruction (0 or 1: flat_store_dword, 2: dwordx2, 4: dwordx4); elements are only dword-aligned
 }
 
 // Case fully determines one execution.
@@ -297,13 +298,22 @@ func (c Case) validate() {
 				bad("step %d %+v", i, s)
 			}
 		case "kernel":
-			if s.Off%4 != 0 || s.Shift < 0 || s.Shift > 4 || s.Off+4*((s.Count-1)<<s.Shift)+4 > size || (s.WG != 64 && s.WG != 128 && s.WG != 256) {
+			w := s.width()
+			if (s.W != 0 && s.W != 1 && s.W != 2 && s.W != 4) || s.Off%4 != 0 || s.Shift < 0 || s.Shift > 4 || s.Off+4*w*((s.Count-1)<<s.Shift)+4*w > size || (s.WG != 64 && s.WG != 128 && s.WG != 256) {
 				bad("step %d %+v", i, s)
 			}
 		default:
 			bad("step %d kind %q", i, s.Kind)
 		}
 	}
+}
+
+// width is the number of dwords a work-item of a kernel step stores.
+func (s Step) width() int {
+	if s.W == 0 {
+		return 1
+	}
+	return s.W
 }
 
 type runner struct {
@@ -496,12 +506,12 @@ func (r *runner) classify(kind string, b *bufState, spec Buf, off, n int) (nontr
 // on any queue assume it is there; queues run concurrently, so every queue
 // launches its own code object (as an application with one module per
 // stream would).
-func (r *runner) codeObject(q, wg int, wait bool, shift int) *insts.KernelCodeObject {
-	k := fmt.Sprintf("%d/%d/%v/%d", q, wg, wait, shift)
+func (r *runner) codeObject(q, wg int, wait bool, shift, w int) *insts.KernelCodeObject {
+	k := fmt.Sprintf("%d/%d/%v/%d/%d", q, wg, wait, shift, w)
 	if co, ok := r.cos[k]; ok {
 		return co
 	}
-	co := buildStoreKernel(wg, wait, shift)
+	co := buildStoreKernel(wg, wait, shift, w)
 	r.cos[k] = co
 	return co
 }
@@ -615,9 +625,13 @@ func (r *runner) history() bool {
 			d.SelectGPU(r.ctx, dev)
 			grid := uint32((s.Count + s.WG - 1) / s.WG * s.WG)
 			args := &storeArgs{Out: st.ptr + driver.Ptr(s.Off), N: uint32(s.Count), K: s.Seed}
-			d.EnqueueLaunchKernel(q, r.codeObject(s.Q, s.WG, s.Wait, s.Shift), [3]uint32{grid, 1, 1}, [3]uint16{uint16(s.WG), 1, 1}, args)
+			d.EnqueueLaunchKernel(q, r.codeObject(s.Q, s.WG, s.Wait, s.Shift, s.width()), [3]uint32{grid, 1, 1}, [3]uint16{uint16(s.WG), 1, 1}, args)
 			r.labels.add("op:kernel")
-			r.classify("kernel", st, spec, s.Off, 4*((s.Count-1)<<s.Shift)+4)
+			w := s.width()
+			r.classify("kernel", st, spec, s.Off, 4*w*((s.Count-1)<<s.Shift)+4*w)
+			if w > 1 {
+				r.labels.add(fmt.Sprintf("kernel:%d-dword-stores", w))
+			}
 			if s.Shift > 0 {
 				r.labels.add("kernel:strided")
 			}
@@ -626,15 +640,20 @@ func (r *runner) history() bool {
 			}
 			st.snapshot()
 			for g := 0; g < s.Count; g++ {
-				p := s.Off + 4*(g<<s.Shift)
-				binary.LittleEndian.PutUint32(st.model[p:], storeValue(uint32(g), s.Seed))
-				for k := 0; k < 4; k++ {
-					if st.writer[p+k] == 1 {
-						r.labels.add("kernel:over-copied-bytes")
+				for j := 0; j < w; j++ {
+					p := s.Off + 4*w*(g<<s.Shift) + 4*j
+					binary.LittleEndian.PutUint32(st.model[p:], storeValue(uint32(g*w+j), s.Seed))
+					for k := 0; k < 4; k++ {
+						if st.writer[p+k] == 1 {
+							r.labels.add("kernel:over-copied-bytes")
+						}
+						st.writer[p+k] = 2
 					}
-					st.writer[p+k] = 2
+					st.kline[p/lineSize] = true
 				}
-				st.kline[p/lineSize] = true
+				if first := s.Off + 4*w*(g<<s.Shift); w > 1 && first/pageSize != (first+4*w-1)/pageSize {
+					r.labels.add("kernel:store-crosses-a-page-boundary")
+				}
 			}
 		}
 		r.pendingCmds = true
